@@ -696,7 +696,7 @@ func runExt4Case(prop string, c core.Case, env *core.Env) core.Result {
 			}
 			return fsck(when, op, nil)
 		}
-		for round, how := range []string{"remove", "remove"} { // (truncation is not among the calls of the statement: ext4 ignores O_TRUNC)
+		for round, how := range []string{"remove", "trunc"} {
 			name := fmt.Sprintf("span%d.bin", round)
 			if !step(fsdrive.Op{Kind: "write", Path: name, Len: bs, DSeed: uint64(round + 1)}) {
 				return res
